@@ -398,6 +398,13 @@ class VClassOf(VUnk):
         super().__init__("type(x)")
 
 
+class VSuperOf(VUnk):
+    """`super()` inside a method of class `cls` (zero-argument form)."""
+    def __init__(self, cls):
+        super().__init__("super()")
+        self.cls = cls
+
+
 class VPieces(VUnk):
     """Result of s.split(sep) / s.rsplit(sep, 1): a list of unknown length >= 1 of which only the LAST piece is known."""
     __slots__ = ("last",)
@@ -590,6 +597,10 @@ class C08Executor(readfile.ReadFileExecutor):
             print("CALL", type(f).__name__, getattr(f, "how", None), repr(getattr(f, "a", None))[:60], getattr(f, "b", None), file=sys.stderr)
         if isinstance(f, VFunc) and f.how == "classattr" and f.a == "int" and f.b == "from_bytes":
             return self.int_from_bytes(st, args, kwargs, node)
+        if isinstance(f, VFunc) and f.how == "builtin" and f.a == "super" and not args and not kwargs and self.cur_fn_stack:
+            q = next((q_ for q_, n_ in self.module.functions.items() if n_ is self.cur_fn_stack[-1]), "")
+            if "." in q:
+                return [(st, VSuperOf(q.rsplit(".", 1)[0]))]
         if isinstance(f, VType) and f.name == "type" and len(args) == 1 and not kwargs:
             return [(st, VClassOf())]        # type(x): pure and total -- the (dynamic, possibly sub-)class of x; x is left as it is
         if isinstance(f, VFunc) and f.how == "classattr" and str(f.a).endswith("ElementTree") and f.b == "fromstring":
@@ -877,6 +888,8 @@ class C08Executor(readfile.ReadFileExecutor):
                 return [(st, VStr(base.b if attr == "__qualname__" else base.b.split(".")[-1]))]
             if base.how == "closure" and hasattr(base.a, "name"):
                 return [(st, VStr(base.a.name))]
+        if isinstance(base, VSuperOf) and attr == "__init__" and self._builtin_exception_init(base.cls):
+            return [(st, VFunc("bound", base, attr))]
         if isinstance(base, VClassOf) and attr in ("__name__", "__qualname__"):
             return [(st, VStr(z3.String(fresh_name("class_name"))))]
         if isinstance(base, VMod) and attr == "__dict__":
@@ -899,7 +912,26 @@ class C08Executor(readfile.ReadFileExecutor):
                 return self.reg.get(f"{self.module.rel}::{o.cls}.{name}")
         return None
 
+    def _builtin_exception_init(self, cls):
+        """The next __init__ after `cls` in the MRO is BaseException.__init__ (accepts any positional arguments, total): every
+        base up to a builtin exception class is a single-inheritance class of this module without an __init__ of its own."""
+        seen = 0
+        while seen < 10:
+            seen += 1
+            node = self.module.classes.get(cls)
+            if node is None or len(node.bases) != 1 or node.keywords:
+                return False
+            base = ast.unparse(node.bases[0])
+            if base in ("Exception", "BaseException", "RuntimeError", "ValueError"):
+                return True
+            if base not in self.module.classes or f"{base}.__init__" in self.module.functions or f"{base}.__new__" in self.module.functions:
+                return False
+            cls = base
+        return False
+
     def call_method(self, st, obj, name, args, kwargs, node):
+        if isinstance(obj, VSuperOf) and name == "__init__" and not kwargs and self._builtin_exception_init(obj.cls):
+            return [(st, NONE)]           # BaseException.__init__(*args): stores args, total
         cm = self._contracted_method(st, obj, name)
         if cm is not None and not cm.inline:
             return self.apply_contract(st, cm, [obj] + list(args), kwargs, node)
@@ -1600,6 +1632,24 @@ def handle_contracts(reg):
              "decoder's encryption signal escaping __enter__ both reach the extractor's handlers"))
     for c_ in out:
         EXECUTOR_KW[c_.target] = {"inline_calls": False, "inline_local": False}
+
+    # exceptions.py (anchor file): constructing the file-encrypted error never fails -- `raise ExtractionFileEncryptedError(msg)` and
+    # `raise ExtractionFileEncryptedError(msg, cause=e)` at the rejection sites really raise THAT class (the engine's `raise C(...)`
+    # takes the construction for granted)
+    EXC = "sharepoint2text/parsing/exceptions.py"
+
+    def cause_kept(c):
+        d = _fields(c)
+        cz = c.args["cause"]
+        return z3.BoolVal(cz is NONE or d.get("__cause__") is cz)
+
+    out.append(FnContract(
+        target=f"{EXC}::{ENCERR}.__init__",
+        params=[("self", p_obj(ENCERR, {})), ("message", p_str()), ("cause", p_opt(p_ext("ExcInfo")))],
+        modifies=("self",), raises=[], total=True,
+        ensures=[("given-cause-is-kept-as-__cause__", cause_kept)],
+        note="construction of the file-encrypted error is total for a str message and an optional cause (kept as __cause__)"))
+    EXECUTOR_KW[f"{EXC}::{ENCERR}.__init__"] = {"inline_calls": False, "inline_local": False}
 
     # ZipContext (base class of _EpubContext): the EPUB detector asks it `exists(name)` and `read_xml_root(name)`
     ZC = X + "util/zip_context.py"
@@ -3041,6 +3091,61 @@ def bounded_chain_check():
     return ("C08/encryption.py::spec/bounded#FP-equals-explicit-chain-up-to-16-bytes", [n >= 0, n < 16] + bytes_ok, FP(ole, nm, z3.IntVal(0)) == explicit)
 
 
+# ---- round 7: the recursive spec FP equals the explicit record chain, for streams of EVERY length (induction lemmas) --------
+# Explicit chain (the property's "FILEPASS at any record position"):  POS(0) = 0, POS(k+1) = POS(k) + 4 + len16(POS(k));
+# CLEAN(k) := the records 0..k-1 exist (4-byte header inside the stream) and none of them is FILEPASS;
+# HIT(k)   := CLEAN(k) and record k exists and is FILEPASS.          Claim:  FP(0)  <=>  exists k >= 0. HIT(k).
+# The solver discharges base and step of each induction below at a symbolic k (definitions given as ground instances; the
+# induction principle itself is the proof rule, as for loop invariants):
+#   A  (invariant)  CLEAN(k) => FP(0) == FP(POS(k))                          base k = 0, step k -> k+1
+#   =>  (soundness)  HIT(k) => FP(0)                                          from A at k + one unfolding of FP
+#   P  (progress)    POS(k) >= 4k                                             base, step (needs len16 >= 0: bytes are 0..255)
+#   <=  (completeness) CLEAN(k) and record k does not exist => not FP(0)     from A at k + one unfolding; together with
+#       "CLEAN(k) and record k exists and is not FILEPASS => CLEAN(k+1)" (definition) and P (record k cannot exist for
+#       4k + 4 > |d|) a chain without a HIT ends in this case after at most |d|/4 + 1 records.
+def chain_lemmas():
+    ole, nm, k = z3.Const("ole!L", OleFile), z3.String("name!L"), z3.Int("k!L")
+    POS = z3.Function("chain_pos", I, I)
+    CLEAN = z3.Function("chain_clean_before", I, B)
+    n = SLEN(ole, nm)
+    fp0 = FP(ole, nm, z3.IntVal(0))
+
+    def rec_id(p):
+        return u16(ole, nm, p)
+
+    def rec_len(p):
+        return u16(ole, nm, p + 2)
+
+    def unfold(p):      # one-step unfolding of the recursive spec at position p (its definition, as a ground instance)
+        return FP(ole, nm, p) == z3.If(p + 4 > n, z3.BoolVal(False), z3.If(rec_id(p) == FILEPASS, z3.BoolVal(True), FP(ole, nm, p + 4 + rec_len(p))))
+
+    def exists_(j):
+        return POS(j) + 4 <= n
+
+    defs = [POS(0) == 0, POS(k + 1) == POS(k) + 4 + rec_len(POS(k)), CLEAN(0),
+            CLEAN(k + 1) == z3.And(CLEAN(k), exists_(k), rec_id(POS(k)) != FILEPASS)]
+    inv_k = z3.Implies(CLEAN(k), fp0 == FP(ole, nm, POS(k)))
+    byte_ok = [z3.And(SBYTE(ole, nm, POS(k) + d) >= 0, SBYTE(ole, nm, POS(k) + d) <= 255) for d in (2, 3)]
+    pre = "C08/encryption.py::spec/lemma#FP-equals-explicit-chain"
+    return [
+        (pre + "/A-base", defs, z3.Implies(CLEAN(0), fp0 == FP(ole, nm, POS(0)))),
+        (pre + "/A-step", defs + [k >= 0, inv_k, unfold(POS(k))], z3.Implies(CLEAN(k + 1), fp0 == FP(ole, nm, POS(k + 1)))),
+        (pre + "/soundness-hit-implies-FP", defs + [k >= 0, inv_k, unfold(POS(k)), CLEAN(k), exists_(k), rec_id(POS(k)) == FILEPASS], fp0),
+        (pre + "/completeness-chain-end-without-hit-implies-not-FP", defs + [k >= 0, inv_k, unfold(POS(k)), CLEAN(k), z3.Not(exists_(k))], z3.Not(fp0)),
+        (pre + "/completeness-no-hit-extends-clean", defs + [k >= 0, CLEAN(k), exists_(k), rec_id(POS(k)) != FILEPASS], CLEAN(k + 1)),
+        (pre + "/progress-base", defs, POS(0) >= 0),
+        (pre + "/progress-step", defs + [k >= 0, POS(k) >= 4 * k] + byte_ok, POS(k + 1) >= 4 * (k + 1)),
+        (pre + "/progress-bounds-the-chain", defs + [k >= 0, POS(k) >= 4 * k, n >= 0, 4 * k + 4 > n], z3.Not(exists_(k))),
+    ]
+
+
+def lemmas():
+    try:
+        return chain_lemmas()
+    except Exception:  # noqa  (never let an exception escape a pack callable)
+        return []
+
+
 def known_findings(kf, violations, repo, tier):
     """Recorded genuine defects (known_findings.json): replay each witness natively against `repo`; a finding that still
     fails prints KNOWN-FINDING and covers exactly its own obligation id."""
@@ -3069,7 +3174,8 @@ TRUSTED = ["olefile / zipfile / pypdf / ElementTree present the container faithf
            "the assumed XML fact: an element name occurs literally in the serialised manifest when its encoding is ASCII-compatible"]
 ASSUMED_MODELS = [
     "olefile.isOleFile(f) / OleFileIO(f): predicate and directory view of the same bytes; exists(name); openstream(name).read() = whole stream or failure (READABLE)",
-    "zipfile.is_zipfile / ZipFile(f) / infolist() / ZipInfo.is_dir() / flag_bits / filename; ZipFile.read(name): KeyError iff no such member",
+    "zipfile.is_zipfile / ZipFile(f) / infolist() / ZipInfo.is_dir() / flag_bits / filename; ZipFile.read(name): KeyError iff no such member; "
+    "ZipFile.namelist() (and a set / list built from it) lists a name exactly when the archive has that member",
     "bytes.decode('utf-8', errors='ignore') of the ODF manifest is its text when the manifest is in an ASCII-compatible encoding (ASCII_COMPAT); "
     "`needle in manifest` / .find / .index / .count on the raw member bytes = uninterpreted RAWHAS(member, needle): an element name occurs in the "
     "raw bytes only under ASCII_COMPAT (UTF-16 manifests are inside the model: a byte-level pre-filter does not see their element names)",
@@ -3077,19 +3183,29 @@ ASSUMED_MODELS = [
     "int.from_bytes(b, 'little') for 0..2 bytes",
     "SevenZipFile(f).__enter__ parses the archive; when the parse reaches an AES coder of the encoded header the decoder's encryption signal escapes "
     "(verified link by link: _apply_decoder, _decompress_folder, _parse_encoded_header, _parse_end_header, _parse_header, SevenZipReader.__init__, SevenZipFile.__enter__)",
-    "SevenZipFile.needs_password() on the opened archive = verified contract of SevenZipFile/SevenZipReader.needs_password",
-    "_EpubContext(f).exists / read_xml_root / close (total); Element.findall('.//{xmlenc}EncryptedData') = all such descendants",
+    "SevenZipFile.needs_password() on the opened archive = verified contract of SevenZipFile/SevenZipReader.needs_password; "
+    "SevenZipFile(f, 'r') / `with` exit: VERIFIED in round 7 (SevenZipFile.__init__ keeps the given bytes with no reader yet; __exit__ returns a false "
+    "value) -- still assumed: the `with` protocol itself (PY-GEN) and that the call-site model composes these contracts on one object",
+    "_EpubContext(f): exists / read_xml_root / close are the inherited ZipContext methods, VERIFIED in round 7 against the zipfile view "
+    "(ZipContext.__init__ / exists / read_xml_root / close, zip_utils.read_zip_xml_root) -- still assumed: _EpubContext.__init__ after "
+    "super().__init__ (container.xml / OPF parsing) may raise anything and leaves _zip / _namelist alone (AST policy P7, not a proof); "
+    "Element.findall('.//{xmlenc}EncryptedData') = all such descendants",
     "pypdf.PdfReader(f), .is_encrypted, .decrypt(''), .pages; reader.trailer and the /Encrypt dictionary as name-keyed dictionaries of numbers / names "
     "(d[k], d.get(k, default), k in d, get_object(), int(), str(), comparisons); `the document decrypts with AES` = /V >= 4 and the crypt filter NAMED "
     "by /StmF, /StrF or /EFF has /CFM /AESV2 or /AESV3 (pdf_uses_aes)",
-    "_DocReader(f) used as a context manager: read() behaves as the verified contract of _DocReader.read on a fresh reader",
+    "_DocReader(f) used as a context manager: VERIFIED in round 7 link by link (_DocReader.__init__ = fresh reader over the given bytes, "
+    "__enter__ = returns self with ole = OleFileIO(those bytes), read() = verified contract, __exit__ returns a false value) -- still "
+    "assumed: the `with` protocol itself (PY-GEN) and that the call-site model composes these contracts on one object",
     "close() of container / context handles is total",
     "attribute reads / comparisons on plain data objects raise at most AttributeError / TypeError",
     "ZipFile.read raises RuntimeError (other than its subclass NotImplementedError) only for an encrypted member",
-    "os.path.basename total on str; _should_skip_file total (C09); open_zipfile (C11); router contracts (C07)",
+    "os.path.basename total on str; open_zipfile (C11); router contracts (C07); _is_supported_file_cached = lru_cache wrapper of "
+    "router.is_supported_file (C07: total, bool) -- _should_skip_file itself is VERIFIED here since round 7",
+    "type(x) is total and pure, type(x).__name__ is some str",
 ]
-BOUNDED = ["C08/encryption.py::spec/bounded#FP-equals-explicit-chain-up-to-16-bytes: recursive chain predicate = explicit chain o_k for streams < 16 bytes (<= 3 records); "
-           "checked by `python3-vt -c 'from contracts.C08 import run_bounded; run_bounded()'` and, natively, by 400 random BIFF chains per run in replay/C08.py (validation, not proof)"]
+BOUNDED = []      # round 7: the bounded cross-check "FP = explicit chain for streams < 16 bytes" is REPLACED by the induction lemmas
+                  # `spec/lemma#FP-equals-explicit-chain/*` (chain_lemmas: every stream length); `run_bounded()` is kept as a developer tool.
+                  # (The native / validation obligations of EXTRA report themselves as bounded in the evidence file.)
 ASSUMPTIONS = [
     "EXC-ANY for library calls; PY-GEN; PY-LOG",
     "obligations speak about the container *views*; that pypdf / olefile compute them correctly is trusted",
@@ -3099,6 +3215,11 @@ ASSUMPTIONS = [
     "CLI entry point: covered by C01 (exit 1 + one stderr line for any ExtractionError); not re-proved here",
     "'same content as the unencrypted original' for empty-password PDFs is checked natively only (replay: RC4-40/128, AES-128/256 copies), see F28",
     "typestate second opinion and the AES-provider obligation are decided by AST dominance analysis (back end 'dataflow')",
+    "round 7: the recursive XLS spec FP equals the explicit record chain by induction (lemmas A-base/A-step, soundness, completeness, progress: "
+    "base and step discharged by the solver at a symbolic k; the induction principle is the proof rule)",
+    "round 7: archive entry point read_archive: which format a container is routed to (_detect_archive_type_optimized) is not specified here "
+    "(C09); proved: whatever extractor runs, its file-encrypted error is passed on unchanged and nothing else produces one; TAR has no encryption",
+    "round 7: _EpubContext inherits the verified ZipContext view (policy P7 is an AST rule, back end 'dataflow')",
 ]
 
 
